@@ -120,6 +120,9 @@ func (x *Enc) run() {
 		for _, p := range x.con.PureParams {
 			currentPure[p] = true
 		}
+		if len(x.con.PureParams) > 0 && x.top != nil {
+			x.assumed[shortFn(x.top)+": callees / function values treated as pure (no heap effect; result a function of arguments and heap state): "+strings.Join(x.con.PureParams, ", ")] = true
+		}
 	}
 	for iter := 0; iter < 12; iter++ {
 		x.changed = false
@@ -238,6 +241,11 @@ func (x *Enc) encodeTop() {
 			ci := x.eng.clauses[c]
 			env := x.newSpecEnv(ci, fr.paramVals(ci.params, nil), h0, h0)
 			x.sc.assertC(x.evalBool(env, clauseExpr(ci)), "given (ghost hypothesis) "+c.Text)
+			gl := c.Label
+			if gl == "" {
+				gl = "given"
+			}
+			x.assumed[shortFn(fn)+": ghost hypothesis "+gl+" (assumed in the body; antecedent of the postconditions at call sites): "+c.Text] = true
 		}
 	}
 	if x.con != nil && len(x.con.HavocPreserves) > 0 {
